@@ -28,7 +28,15 @@ pub fn replay_file(reg: &dyn Registry, id: &str, path: &str) -> i32 {
         Some("debug") | Some("debug-pair") => replay_debug(reg, r),
         Some("jitter") => replay_jitter(reg, r),
         Some("schedule") => replay_schedule(reg, r),
-        Some("jump-witness") | Some("collision") | Some("commute") => replay_state_ops(reg, r),
+        Some("jump-witness") | Some("collision") => replay_state_ops(reg, r),
+        Some(k @ ("commute" | "commute-loose")) => {
+            let Some(ty) = find_type(reg, r) else { return 2 };
+            let b = unhex(r["state"].as_str().unwrap_or(""));
+            let s = refmodels::gf2::BitVec::from_bytes(b.len() * 8, &b);
+            let res = crate::ops::guarded(|| crate::checks::c06::commute_check_with(ty, &s, k == "commute-loose")).unwrap_or_else(|o| Err(format!("{:?}", o)));
+            println!("  jump/step, long_jump/step, jump/long_jump in both orders from {}: {:?}", r["state"], res);
+            finish(if k == "commute-loose" { matches!(&res, Err(e) if e.contains("do not commute")) } else { res.is_err() })
+        }
         Some("ctor") => replay_ctor(reg, r),
         Some("jitter-test-timer") => replay_test_timer(reg, r),
         Some("overlap") => {
